@@ -44,6 +44,14 @@ type C02Err struct {
 	M string `json:"m"`
 }
 
+// C02Dir is one invocation of the schema directive @dflt: the site tag it was applied with and the
+// canonical form of the other arguments it received, in declaration order.
+type C02Dir struct {
+	Tag  string `json:"tag"`
+	Path string `json:"path"`
+	Args string `json:"args"`
+}
+
 type C02Obs struct {
 	ID     int      `json:"id"`
 	Called int      `json:"called"` // Start events of the probed field
@@ -54,6 +62,7 @@ type C02Obs struct {
 	Panic  string   `json:"panic,omitempty"`
 	Recov  []string `json:"recov,omitempty"` // panics recovered by gqlgen (RecoverFunc)
 	Hung   bool     `json:"hung,omitempty"`
+	Dirs   []C02Dir `json:"dirs,omitempty"` // invocations of @dflt
 }
 
 type C02Result struct {
@@ -125,6 +134,10 @@ func c02Exec(p *Probe, c *C02Case) (obs C02Obs) {
 			}
 		case "Recover":
 			obs.Recov = append(obs.Recov, ev.T)
+		case "Dir":
+			if strings.HasPrefix(ev.A, c02DfltPrefix) {
+				obs.Dirs = append(obs.Dirs, C02Dir{Tag: ev.T, Path: ev.P, Args: ev.A[len(c02DfltPrefix):]})
+			}
 		}
 	}
 	return obs
@@ -176,6 +189,44 @@ func (u *Universe) C02FillStub(stub any) {
 			}))
 		}
 	}
+}
+
+const c02DfltPrefix = "dflt:"
+
+// C02FillDirectives replaces the implementation of the directive @dflt(tag, v, w, z, k) in a
+// DirectiveRoot (after FillDirectives): it logs a Dir event with the canonical form of the argument
+// values the generated code handed to it and passes the value through.
+func (u *Universe) C02FillDirectives(root any) {
+	rv := reflect.ValueOf(root).Elem()
+	f := rv.FieldByName("Dflt")
+	if !f.IsValid() || f.Kind() != reflect.Func {
+		panic("c02: the generated DirectiveRoot has no Dflt")
+	}
+	ft := f.Type()
+	f.Set(reflect.MakeFunc(ft, func(in []reflect.Value) []reflect.Value {
+		ctx := in[0].Interface().(context.Context)
+		next := in[2].Interface().(graphql.Resolver)
+		tag := ""
+		if len(in) > 3 && in[3].Kind() == reflect.Ptr && !in[3].IsNil() {
+			tag = in[3].Elem().String()
+		}
+		if run := RunFrom(ctx); run != nil {
+			parts := make([]string, 0, len(in))
+			for _, a := range in[min(4, len(in)):] {
+				parts = append(parts, CanonAddr(a))
+			}
+			run.Log(Event{E: "Dir", P: PathKey(graphql.GetPath(ctx)), T: tag, A: c02DfltPrefix + "[" + strings.Join(parts, ",") + "]"})
+		}
+		res, err := next(ctx)
+		out := []reflect.Value{reflect.Zero(ft.Out(0)), reflect.Zero(errType)}
+		if res != nil {
+			out[0] = reflect.ValueOf(&res).Elem()
+		}
+		if err != nil {
+			out[1] = reflect.ValueOf(err).Convert(errType)
+		}
+		return out
+	}))
 }
 
 func init() {
